@@ -92,7 +92,8 @@ def case_entangled(n, q):
     from htstabilizer.stabilizer import Stabilizer
 
     def make():
-        return [mk_stab(n), q], {}, True
+        st = mk_stab(n)
+        return [st, q], {}, X.And(*spec_valid(st.R, st.S, n))        # valid stabilizers only (property sentence)
 
     def post(args, kw, out):
         st = args[0]
@@ -115,7 +116,10 @@ def case_equiv(n):
     from htstabilizer.stabilizer import Stabilizer
 
     def make():
-        return [mk_stab(n, "a"), mk_stab(n, "b")], {}, True
+        # the property speaks about VALID stabilizers only (n independent commuting Paulis each); what the predicate answers on other inputs is not pinned
+        a, b = mk_stab(n, "a"), mk_stab(n, "b")
+        pre = X.And(*spec_valid(a.R, a.S, n), *spec_valid(b.R, b.S, n))
+        return [a, b], {}, pre
 
     def post(args, kw, out):
         return [("value", L.IFF(out.result, spec_cross_commute(args[0], args[1], n)))]
